@@ -1,85 +1,70 @@
 import CV.Proofs.InvWait2Flow
 /-
-C06, second round, part 2: `no_timeout_after_resume` - the other direction of "never both".
+C06, second round, part 2: `no_timeout_after_resume` - the other direction of "never both" - at full strength.
 
-After the resumption step of wait state `w` no later configuration invokes `w`'s `_on_tick` closure, hence none
-creates a `TimeoutError` carrier (`GenRec.exc w`) or logs `.timeout` through one - PROVIDED that
-  (a) at the resumption step no handler loop in flight still holds `w`'s `_on_tick` handler in its pending
-      list (`W6BNoStaleTick`).  This is NOT an invariant, neither of the model nor of the real code: a handler of
-      `generate_events` that runs the task loop (`tick()`; in the model `stop()` while `running ∧ ¬executing`)
-      lets the call finish and the caller be resumed while the enclosing `_dispatcher` still iterates over a
-      handler list computed before `_on_done` removed the tick handler; the stale `_on_tick` then finds the
-      countdown at 0 and registers the TimeoutError task (see `CV/Proofs/InvWait2Wit.lean` and the report);
-  (b) every later `_dispatcher` step hands only in-range handler ids to its loop, and a temporary tick handler
-      only when it is installed (`W6BLive`; this is the cache-liveness property C01 proves for dispatchers
-      running on a root component from `InitForest ∧ InitHandlers ∧ InitCache` states - `W6InitWait` alone does
-      not constrain the handler cache or `_globals`).
+Since the fix "stale waitEvent closures do nothing once the outcome is decided" (`_on_tick` returns at once when
+`state.flag or state.timed_out`; `_on_done` / `_on_event` return when `state.timed_out`) a stale invocation of
+`_on_tick` - from a handler list computed before `_on_done` removed the tick handler - is a no-op.  So: after the
+resumption step of wait state `w` (which needs `flag`), `flag` stays set, hence no later configuration creates a
+`TimeoutError` carrier (`GenRec.exc w`), none contains one, none logs `.timeout` through one; and a (stale)
+invocation of `w`'s `_on_tick` changes nothing but the log entry of the invocation.
+
+Before the fix this was false (a `generate_events` handler that runs the task loop - `tick()`, or `stop()` outside the
+executing thread - let the caller be resumed while the enclosing `_dispatcher` still held the tick handler; the stale
+`_on_tick` found the countdown at 0 and registered the TimeoutError task): see the header of `InvWait2Wit.lean`, which
+now replays that run as a regression.
 -/
 namespace CV.Core
 
-/-- hypothesis (b) for one configuration: if it is a `_dispatcher` step, the list handed to the handler loop
-    holds only declared handler records, and a temporary `_on_tick` handler only if it is installed -/
-def W6BLive (c : Cfg) : Prop :=
-  ∀ r e rem k hs, c.stack = .dispatcher r e rem :: k → c.exn = none → (c.st.dispatchPre r e rem).1 = some hs →
-    ∀ h, h ∈ hs → h < (step c).st.hs.length ∧
-      ∀ w, ((step c).st.handler h).kind = .waitTick w →
-        (some Name.generateEvents, h) ∈ ((step c).st.comp ((step c).st.wait w).owner).htab
-
-/-- hypothesis (a): no frame of the stack still holds a `_on_tick` handler of `w` (or an undeclared id) -/
-def W6BNoStaleTick (c : Cfg) (w : Nat) : Prop :=
-  ∀ h, h ∈ w6b_pending c.stack → h < c.st.hs.length ∧ (c.st.handler h).kind ≠ .waitTick w
-
-/-- `c'` comes later than `c` in the same admissible session, and (b) holds at every step taken in between -/
-inductive W6BLater (n0 : Nat) : Cfg → Cfg → Prop
-  | refl (c : Cfg) : W6BLater n0 c c
-  | step {c c' : Cfg} : W6BLater n0 c c' → W6BLive c' → W6BLater n0 c (CV.Core.step c')
-  | next {c c' : Cfg} (d : Nat) (tape : List Entry) (op : ExtOp) (hop : op.w6ok n0) :
-      W6BLater n0 c c' → done c' = true → W6BLater n0 c (startOf (envChange c'.st d tape) op)
-
-theorem W6BLater.later {n0 : Nat} {c c' : Cfg} (h : W6BLater n0 c c') : W6Later n0 c c' := by
-  induction h with
-  | refl => exact W6Later.refl _
-  | step _ _ ih => exact W6Later.step ih
-  | next d tape op hop _ hd ih => exact W6Later.next d tape op hop ih hd
-
 /-! ### how an `exc` generator record comes about -/
 
+theorem St.w6b_onWaitTick_gen (t : St) (w g : Nat) :
+    (t.onWaitTick w).2.gen g = t.gen g ∨
+      ((t.wait w).flag = false ∧ (t.wait w).timedOut = false ∧ (t.wait w).timeout = 0 ∧ g = t.gens.length ∧
+        (t.onWaitTick w).2.gen g = .exc w false) := by
+  by_cases hst : (t.wait w).flag = true ∨ (t.wait w).timedOut = true
+  · left; rw [St.w6_onWaitTick_stale t w hst]
+  · rcases St.w6_onWaitTick_gen t w g with h | ⟨h1, h2, h3⟩
+    · exact Or.inl h
+    · right
+      simp only [not_or, Bool.not_eq_true] at hst
+      exact ⟨hst.1, hst.2, h1, h2, h3⟩
+
+/-- an `.exc w b` record after a step was there before (same `w`), or was created by `w`'s own `_on_tick` closure
+    acting at countdown 0 (neither `flag` nor `timedOut` set), or is the record of the carrier's own task step -/
 theorem w6b_exc_step (c : Cfg) (g w : Nat) (b : Bool) (hg : (step c).st.gen g = .exc w b) :
     c.st.gen g = .exc w b ∨
     (∃ r h e k, c.stack = .invoke r h e :: k ∧ c.exn = none ∧ (c.st.handler h).kind = .waitTick w ∧
-      (c.st.wait w).timeout = 0) ∨
+      (c.st.wait w).timeout = 0 ∧ (c.st.wait w).flag = false ∧ (c.st.wait w).timedOut = false) ∨
     (∃ r t k b0, c.stack = .ptBody r t :: k ∧ c.exn = none ∧ c.st.gen t.g = .exc w b0) := by
   by_cases hne : (step c).st.gen g = c.st.gen g
   · left; rw [← hne]; exact hg
   · right
-    by_cases hnew : (c.st.gen g).w6_isExc = false
+    rcases w6_exc_only c g (by rw [hg]; rfl) hne with ⟨r, h, e, k, w0, hs, hxn, hk⟩ | ⟨r, t, k, w0, b0, hs, hxn, hgen⟩
     · left
-      obtain ⟨r, h, e, k, h1, h2, h3, h4, _, _⟩ := w6_exc_needs_timeout0 c g w b hg hnew
-      exact ⟨r, h, e, k, h1, h2, h3, h4⟩
-    · rcases w6_exc_only c g (by rw [hg]; rfl) hne with ⟨r, h, e, k, w0, hs, hxn, hk⟩ | ⟨r, t, k, w0, b0, hs, hxn, hgen⟩
-      · exfalso
-        rw [w6_step_invoke c r h e k hs hxn, Cfg.w6_invoke_waitTick c k r h e w0 hk] at hg hne
-        rcases St.w6_onWaitTick_gen (c.w6_invokeSt h e) w0 g with h1 | ⟨_, h2, _⟩
-        · rw [h1, Cfg.w6_invokeSt_gen] at hne; exact hne rfl
-        · rw [Cfg.w6_invokeSt_gens] at h2
-          apply hnew
-          rw [St.w6_gen_ge _ _ (by rw [h2]; exact Nat.le_refl _)]
-          rfl
-      · right
-        rw [w6_step_ptBody c r t k hs hxn] at hg hne
-        have h2 : c.ptBody k r t = c.ptBodyExc k r t w0 b0 := by unfold Cfg.ptBody; rw [hgen]
-        rw [h2] at hg hne
-        rcases Cfg.w6_ptBodyExc_ex c k r t w0 b0 with hq | hq
-        · exact absurd (hq.exc rfl g (by rw [hg]; rfl)) hne
-        · have h3 := hq.exc rfl g (by rw [hg]; rfl)
-          simp only [St.w6_unregisterTask_gen] at h3
-          rcases St.w6_setGen_gen_cases c.st t.g (.exc w0 true) g with h4 | ⟨h4, _, h5⟩
-          · rw [h4] at h3; exact absurd h3 hne
-          · subst h4
-            rw [h5, hg] at h3
-            injection h3 with a1 _
-            subst a1
-            exact ⟨r, t, k, b0, hs, hxn, hgen⟩
+      rw [w6_step_invoke c r h e k hs hxn, Cfg.w6_invoke_waitTick c k r h e w0 hk] at hg hne
+      rcases St.w6b_onWaitTick_gen (c.w6_invokeSt h e) w0 g with h1 | ⟨f1, f2, f3, _, f5⟩
+      · rw [h1, Cfg.w6_invokeSt_gen] at hne; exact absurd rfl hne
+      · rw [f5] at hg
+        injection hg with a1 _
+        subst a1
+        rw [Cfg.w6_invokeSt_wait] at f1 f2 f3
+        exact ⟨r, h, e, k, hs, hxn, hk, f3, f1, f2⟩
+    · right
+      rw [w6_step_ptBody c r t k hs hxn] at hg hne
+      have h2 : c.ptBody k r t = c.ptBodyExc k r t w0 b0 := by unfold Cfg.ptBody; rw [hgen]
+      rw [h2] at hg hne
+      rcases Cfg.w6_ptBodyExc_ex c k r t w0 b0 with hq | hq
+      · exact absurd (hq.exc rfl g (by rw [hg]; rfl)) hne
+      · have h3 := hq.exc rfl g (by rw [hg]; rfl)
+        simp only [St.w6_unregisterTask_gen] at h3
+        rcases St.w6_setGen_gen_cases c.st t.g (.exc w0 true) g with h4 | ⟨h4, _, h5⟩
+        · rw [h4] at h3; exact absurd h3 hne
+        · subst h4
+          rw [h5, hg] at h3
+          injection h3 with a1 _
+          subst a1
+          exact ⟨r, t, k, b0, hs, hxn, hgen⟩
 
 /-! ### a `TimeoutError` carrier exists only for a finished wait state -/
 
@@ -90,9 +75,9 @@ theorem w6b_step_excFin {n0 : Nat} {c : Cfg} (h : W6CInv n0 c) (hE : W6BExcFin c
   intro g w b hg
   have hmono := w6_phase_mono h w
   have hle := w6_phase_le_four (step c).st w
-  rcases w6b_exc_step c g w b hg with h1 | ⟨r, hh, e, k, hs, hx, hk, h0⟩ | ⟨r, t, k, b0, hs, hx, hgen⟩
+  rcases w6b_exc_step c g w b hg with h1 | ⟨r, hh, e, k, hs, hx, hk, h0, hfl, hto⟩ | ⟨r, t, k, b0, hs, hx, hgen⟩
   · have := hE g w b h1; omega
-  · exact w6_timeout_finishes h w r hh e k hs hx hk h0
+  · exact w6_timeout_finishes h w r hh e k hs hx hk h0 hfl hto
   · have := hE t.g w b0 hgen; omega
 
 theorem W6ReachW.excFin {s0 : St} (hi : W6InitWait s0) {c : Cfg} (h : W6ReachW s0.hs.length s0 c) : W6BExcFin c.st := by
@@ -117,94 +102,74 @@ theorem w6b_no_exc_at_resume {n0 : Nat} {c : Cfg} (h : W6CInv n0 c) (hE : W6BExc
   have := (w6_resume_phase h w hr).1
   omega
 
+/-- the resumption step of `w` happens with `w.flag` set -/
+theorem w6b_resume_flag {n0 : Nat} {c : Cfg} (h : W6CInv n0 c) (w : Nat) (hr : W6ResumesW c w) :
+    (c.st.wait w).flag = true := by
+  obtain ⟨r, t, k, hs, _, hg, _⟩ := hr
+  have hT : c.st.w6_view.TaskOk t := h.headFrame hs
+  exact hT.2.1 w hg
+
 /-! ### the invariant after the resumption -/
 
-/-- the state of affairs after `w` was resumed: `w` is finished, no handler loop holds its tick handler, no
+/-- the state of affairs after `w` was resumed: `flag` is set (so `_on_tick` does nothing any more) and no
     `TimeoutError` carrier of `w` exists -/
 structure W6BAfter (c : Cfg) (w : Nat) : Prop where
-  fin : w6_phase c.st w = 4
-  clean : W6BNoStaleTick c w
+  flag : (c.st.wait w).flag = true
   noExc : ∀ g b, c.st.gen g ≠ .exc w b
 
-theorem w6b_phase4_started {s : St} {w : Nat} (h : w6_phase s w = 4) :
-    (s.wait w).started = true ∧ ¬ s.w6_doneInst w := by
-  unfold w6_phase at h
-  repeat' split at h
-  all_goals first | omega | skip
-  rename_i h1 h2
-  exact ⟨by simpa using h1, h2⟩
-
-theorem w6b_step_after {n0 : Nat} {c : Cfg} (h : W6CInv n0 c) (hL : W6BLive c) (w : Nat) (hA : W6BAfter c w) :
-    W6BAfter (step c) w := by
-  have h' := w6_step_cinv c h
-  have hS := w6_step_s c
-  have hfin : w6_phase (step c).st w = 4 := by
-    have := w6_phase_mono h w
-    have := w6_phase_le_four (step c).st w
-    have := hA.fin
-    omega
-  obtain ⟨hst', hnd'⟩ := w6b_phase4_started hfin
-  have hw' : w < (step c).st.waits.length := (h'.w.1.chain w).2.2.2 hst'
-  refine ⟨hfin, ?_, ?_⟩
-  · intro x hx
-    rcases w6b_flow c x hx with hold | ⟨r, e, rem, k, hs, hstk, hxn, hd, hmem⟩
-    · obtain ⟨a1, a2⟩ := hA.clean x hold
-      exact ⟨Nat.lt_of_lt_of_le a1 hS.hsLen, by rw [hS.hsKeep x a1]; exact a2⟩
-    · obtain ⟨b1, b2⟩ := hL r e rem k hs hstk hxn hd x hmem
-      refine ⟨b1, fun hk => ?_⟩
-      have hin := b2 w hk
-      obtain ⟨_, _, k3⟩ := h'.w.1.kindTick x w b1 hk
-      have := (h'.w.1.i2 w x hw' hst' k3 hin).1
-      exact hnd' this
-  · intro g b hg
-    rcases w6b_exc_step c g w b hg with h1 | ⟨r, hh, e, k, hs, hx, hk, _⟩ | ⟨r, t, k, b0, hs, hx, hgen⟩
-    · exact hA.noExc g b h1
-    · exact (hA.clean hh (by rw [hs]; simp [Frame.w6b_pend])).2 hk
-    · exact hA.noExc t.g b0 hgen
+theorem w6b_step_after (c : Cfg) (w : Nat) (hA : W6BAfter c w) : W6BAfter (step c) w := by
+  refine ⟨((w6_step_s c).bits w).2.2 hA.flag, ?_⟩
+  intro g b hg
+  rcases w6b_exc_step c g w b hg with h1 | ⟨r, hh, e, k, hs, hx, hk, _, hfl, _⟩ | ⟨r, t, k, b0, hs, hx, hgen⟩
+  · exact hA.noExc g b h1
+  · rw [hA.flag] at hfl; cases hfl
+  · exact hA.noExc t.g b0 hgen
 
 theorem w6b_start_after {s : St} {w : Nat} (d : Nat) (tape : List Entry) (op : ExtOp)
-    (hfin : w6_phase s w = 4) (hno : ∀ g b, s.gen g ≠ .exc w b) : W6BAfter (startOf (envChange s d tape) op) w := by
-  refine ⟨by rw [w6_phase_start]; exact hfin, ?_, ?_⟩
-  · intro x hx
-    cases op <;> simp [startOf, startDo, startTick, startFlush, startRun, Cfg.start, Frame.w6b_pend] at hx
-  · intro g b hg
-    exact hno g b (by cases op <;> exact hg)
+    (hfl : (s.wait w).flag = true) (hno : ∀ g b, s.gen g ≠ .exc w b) : W6BAfter (startOf (envChange s d tape) op) w := by
+  refine ⟨by cases op <;> exact hfl, ?_⟩
+  intro g b hg
+  exact hno g b (by cases op <;> exact hg)
 
 /-- the resumption step establishes the invariant -/
 theorem w6b_resume_after {n0 : Nat} {c : Cfg} (h : W6CInv n0 c) (hE : W6BExcFin c.st) (w : Nat)
-    (hr : W6ResumesW c w) (hstale : W6BNoStaleTick c w) : W6BAfter (step c) w := by
-  have hS := w6_step_s c
-  refine ⟨(w6_resume_phase h w hr).2, ?_, ?_⟩
-  · intro x hx
-    obtain ⟨r, t, k, hs, hxn, _, _⟩ := hr
-    rcases w6b_flow c x hx with hold | ⟨r', e, rem, k', hs', hstk, _⟩
-    · obtain ⟨a1, a2⟩ := hstale x hold
-      exact ⟨Nat.lt_of_lt_of_le a1 hS.hsLen, by rw [hS.hsKeep x a1]; exact a2⟩
-    · rw [hs] at hstk; cases hstk
-  · intro g b hg
-    obtain ⟨r, t, k, hs, hxn, hgen, _⟩ := hr
-    rcases w6b_exc_step c g w b hg with h1 | ⟨r', hh, e, k', hs', _⟩ | ⟨r', t', k', b0, hs', _, hgen'⟩
-    · exact w6b_no_exc_at_resume h hE w ⟨r, t, k, hs, hxn, hgen, by assumption⟩ g b h1
-    · rw [hs] at hs'; cases hs'
-    · rw [hs] at hs'; injection hs' with a1 _; injection a1 with _ a2; subst a2
-      rw [hgen] at hgen'; cases hgen'
+    (hr : W6ResumesW c w) : W6BAfter (step c) w := by
+  refine ⟨((w6_step_s c).bits w).2.2 (w6b_resume_flag h w hr), ?_⟩
+  intro g b hg
+  have hno := w6b_no_exc_at_resume h hE w hr
+  obtain ⟨r, t, k, hs, hxn, hgen, _⟩ := hr
+  rcases w6b_exc_step c g w b hg with h1 | ⟨r', hh, e, k', hs', _⟩ | ⟨r', t', k', b0, hs', _, hgen'⟩
+  · exact hno g b h1
+  · rw [hs] at hs'; cases hs'
+  · rw [hs] at hs'; injection hs' with a1 _; injection a1 with _ a2; subst a2
+    rw [hgen] at hgen'; cases hgen'
 
-theorem W6BLater.after {n0 : Nat} {c c' : Cfg} {w : Nat} (h : W6CInv n0 c) (hA : W6BAfter c w)
-    (hl : W6BLater n0 c c') : W6BAfter c' w := by
+theorem W6Later.w6b_after {n0 : Nat} {c c' : Cfg} {w : Nat} (hA : W6BAfter c w)
+    (hl : W6Later n0 c c') : W6BAfter c' w := by
   induction hl with
   | refl => exact hA
-  | step hl' hlive ih => exact w6b_step_after (W6Later.cinv h hl'.later) hlive w ih
-  | next d tape op hop _ _ ih => exact w6b_start_after d tape op ih.fin ih.noExc
+  | step _ ih => exact w6b_step_after _ w ih
+  | next d tape op hop _ _ ih => exact w6b_start_after d tape op ih.flag ih.noExc
 
-/-- **no_timeout_after_resume** (under hypotheses (a) and (b)) -/
+/-- a stale invocation of `w`'s `_on_tick` (after `flag` or `timedOut` was set) changes nothing but the log entry of the
+    invocation -/
+theorem w6b_stale_tick_noop (c : Cfg) (w r hh e : Nat) (k : List Frame) (hs : c.stack = .invoke r hh e :: k)
+    (hx : c.exn = none) (hk : (c.st.handler hh).kind = .waitTick w)
+    (hst : (c.st.wait w).flag = true ∨ (c.st.wait w).timedOut = true) : (step c).st = c.w6_invokeSt hh e := by
+  have hstep : (step c).st = ((c.w6_invokeSt hh e).onWaitTick w).2 := by
+    rw [w6_step_invoke c r hh e k hs hx, Cfg.w6_invoke_waitTick c k r hh e w hk]
+  rw [hstep, St.w6_onWaitTick_stale _ w (by rw [Cfg.w6_invokeSt_wait]; exact hst)]
+
+/-- **no_timeout_after_resume** -/
 theorem w6b_no_timeout_after_resume {n0 : Nat} {c c' : Cfg} (h : W6CInv n0 c) (hE : W6BExcFin c.st) (w : Nat)
-    (hr : W6ResumesW c w) (hstale : W6BNoStaleTick c w) (hl : W6BLater n0 (step c) c') :
-    (∀ r hh e k, c'.stack = .invoke r hh e :: k → (c'.st.handler hh).kind ≠ .waitTick w) ∧
+    (hr : W6ResumesW c w) (hl : W6Later n0 (step c) c') :
+    (c'.st.wait w).flag = true ∧
     (∀ g b, c'.st.gen g ≠ .exc w b) ∧
-    (∀ r t k b, c'.stack = .ptBody r t :: k → c'.st.gen t.g ≠ .exc w b) := by
-  have hA := W6BLater.after (w6_step_cinv c h) (w6b_resume_after h hE w hr hstale) hl
-  refine ⟨?_, hA.noExc, fun r t k b _ => hA.noExc t.g b⟩
-  intro r hh e k hs
-  exact (hA.clean hh (by rw [hs]; simp [Frame.w6b_pend])).2
+    (∀ r t k b, c'.stack = .ptBody r t :: k → c'.st.gen t.g ≠ .exc w b) ∧
+    (∀ r hh e k, c'.stack = .invoke r hh e :: k → c'.exn = none → (c'.st.handler hh).kind = .waitTick w →
+      (step c').st = c'.w6_invokeSt hh e) := by
+  have hA := W6Later.w6b_after (w6b_resume_after h hE w hr) hl
+  exact ⟨hA.flag, hA.noExc, fun r t k b _ => hA.noExc t.g b,
+    fun r hh e k hs hx hk => w6b_stale_tick_noop c' w r hh e k hs hx hk (Or.inl hA.flag)⟩
 
 end CV.Core
